@@ -493,8 +493,9 @@ def run_rand(ctx, spec):
         k, n = rng.randint(1, 4), rng.randint(1, 9)
         p, t = planted(rng, k, n)
         ncol = rng.choice([1, 2, 2, 3])
-        pc = [rng.randrange(ncol) for _ in range(k)]
-        tc = [rng.randrange(ncol) for _ in range(n)]
+        palette = rng.choice([[0, 1, 2], [None, 0, 1], ["a", None, "b"], [(), (0,), None], [False, None, 0.5]])[: max(ncol, 2)]
+        pc = [rng.choice(palette) for _ in range(k)]
+        tc = [rng.choice(palette) for _ in range(n)]
         chk_colour(ctx, p, t, pc, tc)
     for _ in range(spec["hist"]):
         k = rng.randint(1, 5)
